@@ -238,8 +238,11 @@ def specLine (ss : Specs) (lhs rhs : String) : Except String Specs :=
     | "de" =>
       match field args "fmt", (field args "H").bind nats?, (field args "tree").bind SerdeJudge.parseT with
       | some fmt, some H, some t =>
-        let r := rhs.trimAscii.toString
+        let rt := (rhs.trimAscii.toString.splitOn " ").filter (· ≠ "")
+        let r := rt.headD ""
         if r == "panic" then .error "the deserialiser panicked instead of returning an error"
+        else if field rt "leak" != some "0" then
+          .error "decoded components were leaked (leak>0) or dropped more than once (leak<0)"
         else if r == "ok" then
           -- the world it produced, at the level of the abstract map
           let s' : Option Spec.SpecW :=
@@ -449,6 +452,11 @@ def outOfContract (lhs : String) : Bool :=
     | "spawn_cb_at" | "pspawn_at" =>
       let hs := ((field args "hs").bind entities?).getD []
       hasDup (hs.map (·.id))
+    | "query" =>
+      -- `query_many_mut` / `get_many_mut` with one handle in two slots
+      match field args "path", (field args "es").bind entities? with
+      | some path, some es => path.startsWith "many_" && es.eraseDups.length != es.length
+      | _, _ => false
     | _ => false
   | _ => false
 
@@ -500,8 +508,8 @@ def stepLine (m : MState) (lhs : String) : Except String (MState × String) :=
       | .ok w =>
         let m' : MState := { m with worlds := setW m.worlds n w, wids := (n, m.nextWid) :: m.wids.filter (·.1 != n),
                                     nextWid := m.nextWid + 1 }
-        .ok (m', "ok")
-      | .error _ => .ok (m, "err")
+        .ok (m', "ok leak=0")
+      | .error _ => .ok (m, "err leak=0")
     | _, _, _ => .error s!"bad de line: {lhs}"
   | "roundtrip" :: _ => .ok (m, "ok")
   | "de_bytes" :: _ => .ok (m, "impl-only")
